@@ -244,6 +244,7 @@ type LayoutOpts struct {
 	NoComments bool // never emit comments
 	OnlyLF     bool // comments end in LF only, no CR anywhere (for cases that count lines independently)
 	NoInvalid  bool // no invalid UTF-8 in comments
+	NoLines    bool // never the line-structured style
 }
 
 func genComment(t *rapid.T, o LayoutOpts) string {
@@ -308,9 +309,60 @@ func GenGap(t *rapid.T, need bool, last bool, o LayoutOpts) string {
 	return sb.String()
 }
 
-// GenLayout draws a layout for the tokens.
+// GenLayout draws a layout for the tokens. A third of the layouts are
+// line-structured the way people write sources: one statement per line
+// (a line end directly after the statement's last token), indentation, the
+// occasional blank or comment line; the rest is free-form.
 func GenLayout(t *rapid.T, toks []Tok, o LayoutOpts) Layout {
 	g := make([]string, len(toks)+1)
+	if !o.NoLines && Chance(t, 35, "linestyle") {
+		depth := 0
+		eol := Pick(t, "eol", []string{"\n", "\n", "\r\n"})
+		if o.OnlyLF {
+			eol = "\n"
+		}
+		for i := 0; i <= len(toks); i++ {
+			need := i > 0 && i < len(toks) && NeedSep(toks[i-1], toks[i])
+			startsStmt := false
+			if i < len(toks) {
+				switch toks[i].S {
+				case "var", "def", "eval", "print", "bind":
+					startsStmt = toks[i].K == KWord
+				case "}":
+					startsStmt = true
+				}
+			}
+			if i > 0 && (toks[i-1].S == "{" || toks[i-1].S == ";" || toks[i-1].S == "}") {
+				startsStmt = true
+			}
+			if i < len(toks) && toks[i].S == "}" && depth > 0 {
+				depth--
+			}
+			switch {
+			case i == 0:
+				if Chance(t, 20, "leadcomment") && !o.NoComments {
+					g[i] = "# " + Pick(t, "leadtext", []string{"config", "généré", "x"}) + eol
+				}
+			case i == len(toks):
+				g[i] = Pick(t, "trailing", []string{eol, eol, "", eol + eol})
+			case startsStmt:
+				g[i] = eol
+				if Chance(t, 15, "blankline") {
+					g[i] += eol
+				}
+				if Chance(t, 10, "commentline") && !o.NoComments {
+					g[i] += strings.Repeat("  ", depth) + "# note" + eol
+				}
+				g[i] += strings.Repeat(Pick(t, "indent", []string{"  ", "\t", ""}), depth)
+			case need || Chance(t, 70, "space"):
+				g[i] = " "
+			}
+			if i < len(toks) && toks[i].S == "{" {
+				depth++
+			}
+		}
+		return Layout{g}
+	}
 	for i := 0; i <= len(toks); i++ {
 		need := i > 0 && i < len(toks) && NeedSep(toks[i-1], toks[i])
 		g[i] = GenGap(t, need, i == len(toks), o)
